@@ -840,6 +840,8 @@ class C08(Prop):
             ("load-find-disagree", born + ["r ld c08/b0 o2 1 o3"]),
             ("load-find-disagree", born + ["r ld c08/b0 0 1 o3"]),
             ("ok", born + ["r ld c08/b0 o2 1 o2"]),
+            ("ok", born + ["r ld c08/b0 o2 0 0"]),
+            ("found-destructed", born + ["r ld c08/b0 o2 1 0"]),
             ("ok", born + ["r ld c08/b0 ? 1 ?"]),
             ("found-destructed", ["r fo c08/b0 0 1"]),
             ("found-destructed", ["r fl la 0 1"]),
